@@ -327,7 +327,7 @@ def _fsm(ctx):
     build = F.const(ABC, 'get_finite_state_machine')
     walk = F.const(ABC, '_infer_hint_factory_collections_abc')
     ctx.require(isinstance(build, FuncVal) and isinstance(walk, FuncVal), 'anchor vanished: the collections.abc state machine')
-    olds = [(n_, F.patch_global('beartype._util.py.utilpyversion', n_, False)) for n_ in ('IS_PYTHON_AT_LEAST_3_12',)
+    olds = [(n_, F.patch_global('beartype._util.py.utilpyversion', n_, True)) for n_ in ('IS_PYTHON_AT_LEAST_3_12',)
             if n_ in F.module_env('beartype._util.py.utilpyversion')]
     saved, saved_i = dict(F.stubs), F.isinstance_hook
     if 'FROZENDICT_EMPTY' in F.module_env(ABC):
@@ -381,6 +381,13 @@ def _fsm(ctx):
                 extra = sorted(set(by_name[q_][1]) - set(by_name[p_][1]))
                 if extra:
                     classes[f'a {p_} implementation that also defines {extra[0]} of {q_}'] = (set(by_name[p_][1]) | {extra[0]}, p_)
+        # … and container classes that also expose their memory (array-likes): the unsubscriptable Buffer protocol must not
+        # pre-empt a container protocol, or infer_hint() subscripts Buffer and raises
+        if 'Buffer' in by_name:
+            extra_b = sorted(set(by_name['Buffer'][1]))
+            for p_ in ('Collection', 'Sequence', 'MutableSequence', 'Iterable'):
+                if p_ in by_name:
+                    classes[f'a {p_} implementation that is also a buffer'] = (set(by_name[p_][1]) | set(extra_b), p_)
         state = {}
         F.stubs['beartype._util.utilobjattr.get_object_method_name_to_value'] = \
             lambda e, a, k: _KeysDict({m_: 'method' for m_ in state['methods']} if (
